@@ -29,7 +29,17 @@ structure St where
 
 def apiOf (k : Nat) : Api :=
   match k with
-  | 0 => .blockingPut | 1 => .iput | 2 => .iputVarn | 3 => .bput | _ => .bputVarn
+  | 0 => .blockingPut | 1 => .iput | 2 => .iputVarn | 3 => .bput | 5 => .putVard | _ => .bputVarn
+
+/-- the trailing tokens of a vard line:
+    ft coll em | filetypeNull filetypeSize fnelems ftypeMatches buftypeNull bufcount perType xsz -/
+def vardArgs (toks : List String) (nc ns ct : Bool) : VardArgs :=
+  let r := toks.reverse
+  let g := fun (i : Nat) => (r[i]?.getD "0")
+  let gi := fun (i : Nat) => ((g i).toInt?.getD 0)
+  { filetypeNull := g 7 == "1", filetypeSize := gi 6, fnelems := gi 5, ftypeMatches := g 4 == "1",
+    buftypeNull := g 3 == "1", bufcount := gi 2, perType := gi 1, contig := ct, needConvert := nc, needSwap := ns,
+    xsz := (g 0).toNat?.getD 1, coll := g 9 == "1" }
 
 def hexVal (c : Char) : Nat :=
   if c.isDigit then c.toNat - '0'.toNat
@@ -70,7 +80,18 @@ def step (st : St) (line : String) : St × List String :=
       let req : Req := { needConvert := nc == "1", needSwap := ns == "1", contig := ct == "1", imap := im == "1",
                          nbytes := nb.toInt?.getD 0 }
       let api := apiOf (kind.toNat?.getD 0)
-      if op == "P" then
+      let isVard := (toks[9]?.getD "") == "d"
+      if isVard && op == "P" then
+        let a := vardArgs toks req.needConvert req.needSwap req.contig
+        let o := putVard st.hint a []
+        let u := putVardMpiUser st.hint a
+        (st, [s!"P h{h} err={o.err} xbuf={if u then "user" else "own"} swapped={b01 (u && a.needSwap)} cnt={if u then toString o.mpiCount else "-"}" ++ dumpS st.s])
+      else if isVard && op == "R" then
+        let a := vardArgs toks req.needConvert req.needSwap req.contig
+        let o := getVard a [] []
+        ({ st with hs := st.hs.modify h (fun _ => { op := "R" }) },
+         [s!"R h{h} err={o.err} xbuf={if getVardMpiUser a then "user" else "own"}" ++ dumpS st.s])
+      else if op == "P" then
         (st, [s!"P h{h} err=0 xbuf={if mpiGetsUserBuf api st.hint req then "user" else "own"} swapped={b01 (swapFlag api st.hint req)}" ++ dumpS st.s])
       else if op == "R" then
         ({ st with hs := st.hs.modify h (fun _ => { op := "R" }) }, [s!"R h{h} err=0" ++ dumpS st.s])
